@@ -17,3 +17,4 @@ open IrVerif.Clone
 #print axioms C13_faithful_function
 #print axioms C13_faithful_model
 #print axioms C13_faithful_serialize
+#print axioms C13_closed_outer
